@@ -42,6 +42,11 @@ namespace ValueFlow
 
     MathLib::bigint truncateIntValue(MathLib::bigint value, size_t value_size, ValueType::Sign dst_sign);
 
+    /** Does the conversion from integer type src to integer type dst keep every value (of a source that is
+     * known to be non-negative, if srcNonNegative is set)? Impossible values of the source are facts about the
+     * result only then. */
+    bool isValuePreservingConversion(const ValueType& src, const ValueType& dst, bool srcNonNegative, const Settings& settings);
+
     Token * valueFlowSetConstantValue(Token *tok, const Settings &settings);
 
     Value castValue(Value value, ValueType::Sign sign, nonneg int bit);
